@@ -8,10 +8,10 @@ CONSTANTS
   L2 = 0
   MaxArgs = 2
   Fns = {"chars", "glue", "rule", "disc", "lig", "hbox", "insertion", "math", "mark", "kern", "penalty", "vbox", "adjust"}
-  Rich = TRUE
+  Rich = FALSE
   TextLen = 0
   Chars = {}
   IntParts = {}
   Sample = 1
-INVARIANTS InvCallTotal InvNormalForm InvModeDiscipline InvBindingIsFunction InvOkMeansEachParameterOnce InvPositionalFirst InvRenderReads
+INVARIANTS InvCallTotal InvNormalForm InvModeDiscipline InvBindingIsFunction InvOkMeansEachParameterOnce InvPositionalFirst InvRenderReads InvFormat
 CHECK_DEADLOCK FALSE
